@@ -170,23 +170,47 @@ def validate_traces(module: str, records: list[dict], *, shards: int | None = No
     tmp = scratch('trace-')
     try:
         def one(k):
-            f = tmp / f'shard{k}.ndjson'
-            with open(f, 'w') as fh:
-                for i in buckets[k]:
-                    fh.write(json.dumps(records[i], separators=(',', ':')) + '\n')
-            e = {'TRACE_FILE': str(f)}
-            if env:
-                e.update(env)
-            r = run_tlc(module, cfg, workers=1, env=e, timeout=timeout)
-            vs = {}
-            for ln in r.out.splitlines():
-                m = VERDICT_RE.match(ln.strip())
-                if m:
-                    vs[int(m.group(1))] = (m.group(2), m.group(3) or '')
-            if not r.completed or len(vs) != len(buckets[k]):
-                raise Machinery(f'trace spec {module} shard {k}: completed={r.completed} verdicts={len(vs)}/'
-                                f'{len(buckets[k])}\n{r.out[-4000:]}')
-            return k, vs, r
+            # Verdicts are total by construction of the trace specs; should the evaluation of one record nevertheless fail (a recorded
+            # value so malformed that an operator is undefined on it), that record gets the verdict 'spec-evaluation-error', the rest of
+            # its behaviour 'skipped-after-evaluation-error', and the remaining behaviours are judged in a fresh TLC run.  Report.finish
+            # turns a run whose ONLY complaints are of this kind into a machinery failure (exit 2), so they never count as a verdict.
+            remaining = list(buckets[k])
+            vs_all, pos0, r = {}, 0, None
+            for attempt in range(12):
+                f = tmp / f'shard{k}-{attempt}.ndjson'
+                with open(f, 'w') as fh:
+                    for i in remaining:
+                        fh.write(json.dumps(records[i], separators=(',', ':')) + '\n')
+                e = {'TRACE_FILE': str(f)}
+                if env:
+                    e.update(env)
+                r = run_tlc(module, cfg, workers=1, env=e, timeout=timeout)
+                vs = {}
+                for ln in r.out.splitlines():
+                    m = VERDICT_RE.match(ln.strip())
+                    if m:
+                        vs[int(m.group(1))] = (m.group(2), m.group(3) or '')
+                if r.completed and len(vs) == len(remaining):
+                    for p_, v_ in vs.items():
+                        vs_all[pos0 + p_] = v_
+                    return k, vs_all, r
+                n_ok = len(vs)
+                if r.completed or sorted(vs) != list(range(1, n_ok + 1)) or n_ok >= len(remaining) or 'rror' not in r.out:
+                    raise Machinery(f'trace spec {module} shard {k}: completed={r.completed} verdicts={len(vs)}/'
+                                    f'{len(remaining)}\n{r.out[-4000:]}')
+                for p_, v_ in vs.items():
+                    vs_all[pos0 + p_] = v_
+                bad = remaining[n_ok]
+                vs_all[pos0 + n_ok + 1] = ('spec-evaluation-error', str(records[bad].get('act', '')))
+                j = n_ok + 1
+                while j < len(remaining) and 'b' in records[bad] and records[remaining[j]].get('b') == records[bad]['b']:
+                    vs_all[pos0 + j + 1] = ('skipped-after-evaluation-error', str(records[remaining[j]].get('act', '')))
+                    j += 1
+                pos0 += j
+                remaining = remaining[j:]
+                if not remaining:
+                    return k, vs_all, r
+            raise Machinery(f'trace spec {module} shard {k}: more than 12 evaluation errors\n{r.out[-3000:]}')
         out: list = [None] * len(records)
         stats = []
         with ThreadPoolExecutor(max_workers=len(buckets)) as ex:
@@ -327,6 +351,10 @@ class Report:
         (EVID / f'{self.prop}.json').write_text(json.dumps(ev, indent=1, default=_js))
         for fid, k in self.known.items():
             print(f'KNOWN-FINDING: property={self.prop} {fid} {k["what"]} (seen {k["count"]}x this run)')
+        if self.violations and all(str(v.get('clause', '')).startswith(('spec-evaluation-error', 'skipped-after-evaluation-error'))
+                                   for v in self.violations):
+            raise Machinery('the trace spec could not be evaluated on a recorded value and nothing else was found: '
+                            + json.dumps(self.violations[0], default=_js)[:1500])
         if self.violations:
             REPLAYS.mkdir(exist_ok=True)
             path = REPLAYS / f'{self.prop}-{self.seed}-{self.tier}.json'
@@ -336,6 +364,9 @@ class Report:
             print('first violation:', json.dumps(v, default=_js)[:1500])
             print(f'VIOLATION property={self.prop} replay={path}')
             return 1
+        if self.evaluations == 0 or self.nontrivial == 0:
+            # a run that judged nothing (or nothing non-trivial) of the implementation decides nothing: never report it as OK
+            raise Machinery(f'vacuous run: evaluations={self.evaluations} nontrivial={self.nontrivial}')
         print(f'OK property={self.prop} tier={self.tier} states={self.states} traces={self.traces} '
               f'evaluations={self.evaluations} nontrivial={self.nontrivial} wall={wall:.1f}s')
         return 0
